@@ -78,6 +78,9 @@ fn main() {
         "C30" => storemon::bulk::main(&args),
         "C31" => storemon::vector::main(&args),
         "C32" => storemon::ids::main(&args),
+        "C13" => cyphermon::stmts::main_c13(&args),
+        "C14" => cyphermon::stmts::main_c14(&args),
+        "C24" => cyphermon::stmts::main_c24(&args),
         "C15" => cyphermon::index::main(&args),
         "C19" => cyphermon::tlp::main(&args),
         "C20" => cyphermon::order::main(&args),
